@@ -1,12 +1,14 @@
 package props
 
 import (
+	"encoding/json"
 	"fmt"
 	"net/http"
 	"net/url"
 	"strings"
 	"time"
 
+	jose "github.com/go-jose/go-jose/v4"
 	"github.com/zitadel/oidc/v3/pkg/oidc"
 
 	"verif/sim/world"
@@ -26,6 +28,9 @@ type flowOpts struct {
 	nonce        string
 	redirect     string // default: first registered
 	extra        url.Values
+	// viaObject: state, nonce and the PKCE parameters travel only inside a request object signed with the client's
+	// registered key (honoured only by providers that support request objects)
+	viaObject bool
 }
 
 type session struct {
@@ -85,6 +90,19 @@ func startAuthz(w *world.World, b *world.Browser, o flowOpts) (*session, *world.
 		} else {
 			ap.Challenge = s.verifier
 		}
+	}
+	if key, ok := w.ClientKeys[o.client]; ok && o.viaObject {
+		ro := map[string]any{"iss": o.client, "aud": []string{w.Issuer}, "client_id": o.client, "response_type": o.responseType, "state": o.state, "nonce": o.nonce}
+		if ap.Challenge != "" {
+			ro["code_challenge"], ro["code_challenge_method"] = ap.Challenge, ap.ChallengeMethod
+		}
+		payload, _ := json.Marshal(ro)
+		ap.State, ap.Nonce, ap.Challenge, ap.ChallengeMethod = "", "", "", ""
+		extra := url.Values{"request": {signRaw(payload, jose.RS256, key.Key, key.KeyID)}}
+		for k, v := range ap.Extra {
+			extra[k] = v
+		}
+		ap.Extra = extra
 	}
 	resp, id := w.Authorize(b, ap)
 	s.authReq = id
